@@ -11,35 +11,18 @@ package spv
 // proof factor in [1, 2^32], current epoch >= 1, difficulties positive and
 // within the consensus retarget bound of a factor 4 of each other.
 
-//@ ghost piLatest int
-//@ ghost piConf int
 //@ ghost piFactor int
-//@ ghost piEpoch int
-//@ ghost piCur int
-//@ ghost piPrev int
 
-//@ assume func github.com/keep-network/keep-core/pkg/bitcoin.Chain.GetLatestBlockHeight
-//@   modifies ghost.piLatest
-//@   ensures err == nil ==> ghost.piLatest == result0 && result0 <= 4294967295
-//@ assume func github.com/keep-network/keep-core/pkg/bitcoin.Chain.GetTransactionConfirmations
-//@   modifies ghost.piConf
-//@   ensures err == nil ==> ghost.piConf == result0 && result0 >= 1 && result0 <= ghost.piLatest + 1
 //@ assume func Chain.TxProofDifficultyFactor
 //@   modifies ghost.piFactor, alloc
 //@   ensures err == nil ==> result0 != nil && ghost.piFactor == bigval(result0) && bigval(result0) >= 1 && bigval(result0) <= 4294967295
-//@ assume func github.com/keep-network/keep-core/pkg/maintainer/btcdiff.Chain.CurrentEpoch
-//@   modifies ghost.piEpoch
-//@   ensures err == nil ==> ghost.piEpoch == result0 && result0 >= 1 && result0 <= 4294967295
-//@ assume func github.com/keep-network/keep-core/pkg/maintainer/btcdiff.Chain.GetCurrentAndPrevEpochDifficulty
-//@   modifies ghost.piCur, ghost.piPrev, alloc
-//@   ensures err == nil ==> result0 != nil && result1 != nil && result0 != result1 && ghost.piCur == bigval(result0) && ghost.piPrev == bigval(result1) && bigval(result0) >= 1 && bigval(result1) >= 1 && bigval(result1) <= 4 * bigval(result0) && bigval(result0) <= 4 * bigval(result1)
 
 //@ func getProofInfo
 //@   property C32
 //@   opt noframe 1
-//@   ensures [classification] err == nil ==> (let start = ghost.piLatest - ghost.piConf + 1 :: let sE = start / 2016 :: let eE = (start + ghost.piFactor - 1) / 2016 :: result0 <==> ((sE == ghost.piEpoch && eE == ghost.piEpoch) || (sE == ghost.piEpoch - 1 && eE == ghost.piEpoch - 1) || (sE == ghost.piEpoch - 1 && eE == ghost.piEpoch)))
-//@   ensures [accumulated-confirmations-reported] err == nil && result0 ==> result1 == ghost.piConf
-//@   ensures [same-epoch-needs-exactly-the-factor] err == nil && result0 ==> (let start = ghost.piLatest - ghost.piConf + 1 :: (start / 2016 == (start + ghost.piFactor - 1) / 2016) ==> result2 == ghost.piFactor)
-//@   ensures [cross-epoch-sufficient] err == nil && result0 ==> (let start = ghost.piLatest - ghost.piConf + 1 :: let nPrev = 2016 - start % 2016 :: (start / 2016 != (start + ghost.piFactor - 1) / 2016) ==> (result2 > nPrev && nPrev * ghost.piPrev + (result2 - nPrev) * ghost.piCur >= ghost.piFactor * ghost.piPrev))
-//@   ensures [cross-epoch-minimal] err == nil && result0 ==> (let start = ghost.piLatest - ghost.piConf + 1 :: let nPrev = 2016 - start % 2016 :: (start / 2016 != (start + ghost.piFactor - 1) / 2016) ==> (nPrev * ghost.piPrev + (result2 - nPrev - 1) * ghost.piCur < ghost.piFactor * ghost.piPrev))
+//@   ensures [classification] err == nil ==> (let start = ghost.btcLatestHeight - ghost.txConfirmations + 1 :: let sE = div(start, 2016) :: let eE = div(start + ghost.piFactor - 1, 2016) :: result0 <==> ((sE == ghost.relayEpoch && eE == ghost.relayEpoch) || (sE == ghost.relayEpoch - 1 && eE == ghost.relayEpoch - 1) || (sE == ghost.relayEpoch - 1 && eE == ghost.relayEpoch)))
+//@   ensures [accumulated-confirmations-reported] err == nil && result0 ==> result1 == ghost.txConfirmations
+//@   ensures [same-epoch-needs-exactly-the-factor] err == nil && result0 ==> (let start = ghost.btcLatestHeight - ghost.txConfirmations + 1 :: (div(start, 2016) == div(start + ghost.piFactor - 1, 2016)) ==> result2 == ghost.piFactor)
+//@   ensures [cross-epoch-sufficient] err == nil && result0 ==> (let start = ghost.btcLatestHeight - ghost.txConfirmations + 1 :: let nPrev = 2016 - mod(start, 2016) :: (div(start, 2016) != div(start + ghost.piFactor - 1, 2016)) ==> (result2 > nPrev && nPrev * ghost.epochPrev + (result2 - nPrev) * ghost.epochCur >= ghost.piFactor * ghost.epochPrev))
+//@   ensures [cross-epoch-minimal] err == nil && result0 ==> (let start = ghost.btcLatestHeight - ghost.txConfirmations + 1 :: let nPrev = 2016 - mod(start, 2016) :: (div(start, 2016) != div(start + ghost.piFactor - 1, 2016)) ==> (nPrev * ghost.epochPrev + (result2 - nPrev - 1) * ghost.epochCur < ghost.piFactor * ghost.epochPrev))
 //@   ensures [not-provable-reports-zero] err == nil && !result0 ==> result1 == 0 && result2 == 0
